@@ -6,7 +6,7 @@ from crosshair.tracers import NoTracing
 
 from vt import rt
 from vt.common import pick, digits, make_rb, tree_to_json
-from vt.space import S, P, count, unrank
+from vt.space import PB, S, P, count, unrank
 from vt.oracles import device as refdev
 
 META = {
@@ -60,6 +60,12 @@ rp *
     ~ %rewrite %global
 a
 """, [S(["rp k1"], [P(["s 1", "s 2"]), S(["if x"], [P(["s 3", "s 4"], maxlen=2)])]), S(["a", "a v"])]),
+    # %ordered rows that are BLOCKS: a block can be moved and edited inside in the same change
+    "D4": ("""
+pm *
+    cl * %ordered
+        ~
+""", [S(["pm k1"], [PB(["cl 1", "cl 2", "cl 3"], [S(["s 1", "s 2"])] + ([] if rt.TIER == "quick" else [S(["p"])]))])]),
 }
 FAM = os.environ.get("VT_FAM", "D1")
 TEXT, SLOTS = FAMS[FAM]
@@ -359,7 +365,7 @@ def h_twin(case: int) -> bool:
 def plan(tier):
     q = tier == "quick"
     obs = []
-    for f, sh in (("D1", 16), ("D2", 12), ("D3", 6)):
+    for f, sh in (("D1", 16), ("D2", 12), ("D3", 6), ("D4", 12)):
         obs.append(dict(name="diff.%s" % f, func="h_diff", shards=sh if q else sh * 2, timeout=280 if q else 2400, env={"VT_FAM": f}))
     obs.append(dict(name="twin", func="h_twin", shards=1, timeout=100, expect="refuted", env={"VT_FAM": "D2"}))
     return obs
